@@ -133,7 +133,14 @@ func stratBuild(s strategy.Strategy) func(in []<-chan *asset.Snapshot) []<-chan 
 type namedStrat struct {
 	Name string
 	New  func() strategy.Strategy
-	Warm int
+	Warm int // largest warm-up of the strategies involved (lengths around it are the interesting ones)
+	// Quiet is a sound lower bound on the first position that may carry a
+	// non-Hold action: the strategy's own warm-up for base strategies and
+	// decorators, the largest sub warm-up for And (all must agree), the
+	// smallest for Or / Majority / Split (one acting sub-strategy is enough).
+	Quiet int
+	Row   *reg.Strat // registry row for base strategies
+	Cfg   reg.Cfg
 }
 
 // baseStrats returns the registry strategies at default and random
@@ -148,10 +155,11 @@ func baseStrats(ctx *run.Ctx, nrand int) []namedStrat {
 		}
 		for ci, cfg := range cfgs {
 			cfg := cfg
+			w := row.Warm(row.New(cfg))
 			out = append(out, namedStrat{
 				Name: fmt.Sprintf("%s cfg%d=%v", row.Name, ci, cfg),
 				New:  func() strategy.Strategy { return row.New(cfg) },
-				Warm: row.Warm(row.New(cfg)),
+				Warm: w, Quiet: w, Row: row, Cfg: cfg,
 			})
 		}
 	}
@@ -164,25 +172,31 @@ func compoundStrats(ctx *run.Ctx, base []namedStrat, count int) []namedStrat {
 	r := gen.New(ctx.Seed, "compound")
 	pick := func() namedStrat { return base[r.Intn(len(base))] }
 	var out []namedStrat
-	add := func(name string, warm int, f func() strategy.Strategy) {
-		out = append(out, namedStrat{Name: name, New: f, Warm: warm})
+	add := func(name string, warm int, f func() strategy.Strategy, quiet ...int) {
+		q := warm
+		if len(quiet) > 0 {
+			q = quiet[0]
+		}
+		out = append(out, namedStrat{Name: name, New: f, Warm: warm, Quiet: q})
 	}
 	for i := 0; i < count; i++ {
 		a, b, c := pick(), pick(), pick()
 		w2 := max(a.Warm, b.Warm)
 		w3 := max(w2, c.Warm)
+		q2 := min(a.Warm, b.Warm)
+		q3 := min(q2, c.Warm)
 		add(fmt.Sprintf("strategy.AndStrategy (%s | %s)", a.Name, b.Name), w2, func() strategy.Strategy {
 			return strategy.NewAndStrategy("and", a.New(), b.New())
 		})
 		add(fmt.Sprintf("strategy.OrStrategy (%s | %s | %s)", a.Name, b.Name, c.Name), w3, func() strategy.Strategy {
 			return strategy.NewOrStrategy("or", a.New(), b.New(), c.New())
-		})
+		}, q3)
 		add(fmt.Sprintf("strategy.MajorityStrategy (%s | %s | %s)", a.Name, b.Name, c.Name), w3, func() strategy.Strategy {
 			return strategy.NewMajorityStrategyWith("majority", []strategy.Strategy{a.New(), b.New(), c.New()})
-		})
+		}, q3)
 		add(fmt.Sprintf("strategy.SplitStrategy (%s | %s)", a.Name, b.Name), w2, func() strategy.Strategy {
 			return strategy.NewSplitStrategy(a.New(), b.New())
-		})
+		}, q2)
 		add(fmt.Sprintf("decorator.InverseStrategy (%s)", a.Name), a.Warm, func() strategy.Strategy { return decorator.NewInverseStrategy(a.New()) })
 		add(fmt.Sprintf("decorator.NoLossStrategy (%s)", b.Name), b.Warm, func() strategy.Strategy { return decorator.NewNoLossStrategy(b.New()) })
 		add(fmt.Sprintf("decorator.StopLossStrategy (%s)", c.Name), c.Warm, func() strategy.Strategy { return decorator.NewStopLossStrategy(c.New(), 0.05) })
@@ -195,6 +209,27 @@ func compoundStrats(ctx *run.Ctx, base []namedStrat, count int) []namedStrat {
 	}
 	add("compound.MacdRsiStrategy default", 33, func() strategy.Strategy { return compound.NewMacdRsiStrategy() })
 	add("compound.MacdRsiStrategy (45,55)", 33, func() strategy.Strategy { return compound.NewMacdRsiStrategyWith(45, 55) })
+	// AllAndStrategies / AllSplitStrategies share the base instances between compounds.
+	if len(base) >= 4 {
+		four := []namedStrat{pick(), pick(), pick(), pick()}
+		mk := func() []strategy.Strategy {
+			l := make([]strategy.Strategy, len(four))
+			for i := range four {
+				l[i] = four[i].New()
+			}
+			return l
+		}
+		for i := range strategy.AllAndStrategies(mk()) {
+			i := i
+			add(fmt.Sprintf("strategy.AllAndStrategies[%d] of (%s | %s | %s | %s)", i, four[0].Name, four[1].Name, four[2].Name, four[3].Name),
+				max(four[0].Warm, four[1].Warm, four[2].Warm, four[3].Warm), func() strategy.Strategy { return strategy.AllAndStrategies(mk())[i] }, 0)
+		}
+		for i := range strategy.AllSplitStrategies(mk()) {
+			i := i
+			add(fmt.Sprintf("strategy.AllSplitStrategies[%d] of (%s | %s | %s | %s)", i, four[0].Name, four[1].Name, four[2].Name, four[3].Name),
+				max(four[0].Warm, four[1].Warm, four[2].Warm, four[3].Warm), func() strategy.Strategy { return strategy.AllSplitStrategies(mk())[i] }, 0)
+		}
+	}
 	return out
 }
 
